@@ -3,6 +3,7 @@ C08 — tunnel packets: produced exactly when due, gap-free sequence, atomic fee
 Model: Model/Tunnel.lean. The route (bandtss signing request / IBC send) is the input `routeOk`.
 -/
 import BandVerif.Model.Tunnel
+import BandVerif.Lemmas.TunnelPrices
 import BandVerif.Generated.Tunnel
 
 namespace C08
@@ -314,5 +315,43 @@ example : generateNewPrices [sdA] [⟨"A", 3, 1000, 0⟩] [⟨"A", 3, 1020, 5⟩
 example : generateNewPrices [sdA] [⟨"A", 3, 1000, 0⟩] [⟨"A", 3, 1019, 5⟩] 10 false = [] := by decide
 example : generateNewPrices [sdA] [⟨"A", 3, 1000, 0⟩] [] 10 true = [⟨"A", 4, 0, 10⟩] := by decide
 example : deviationBPS 0 5 = maxInt64 := by decide
+
+/-- PROPERTY (what was sent becomes the reference): every price of a sent packet (one price per signal) IS the tunnel's reference for that signal afterwards, whatever its
+    status or value: each entry of the updated list for that signal is the sent price, and there is one -/
+theorem sent_price_becomes_the_reference (l prices : List Price) (hnd : (prices.map (·.sid)).Nodup) (p : Price) (hp : p ∈ prices) :
+    (∀ q ∈ updatePrices l prices, q.sid = p.sid → q = p) ∧ p ∈ updatePrices l prices := by
+  induction prices generalizing l with
+  | nil => cases hp
+  | cons p0 rest ih =>
+    simp only [List.map_cons, List.nodup_cons] at hnd
+    obtain ⟨hnot, hrest⟩ := hnd
+    rcases List.mem_cons.mp hp with e | e
+    · subst e
+      -- the first price: set now, untouched by the rest
+      simp only [updatePrices]
+      split
+      · rename_i hany
+        refine ⟨fun q hq hs => ?_, ?_⟩
+        · have hq' := (updatePrices_untouched _ rest q (by rw [hs]; exact hnot)).mp hq
+          obtain ⟨x, _, ex⟩ := List.mem_map.mp hq'
+          by_cases c : (x.sid == p.sid) = true
+          · rw [if_pos c] at ex; exact ex.symm
+          · rw [if_neg c] at ex; subst ex; exact absurd (by simpa using hs) c
+        · apply (updatePrices_untouched _ rest p hnot).mpr
+          obtain ⟨x, hx, hxs⟩ := List.any_eq_true.mp hany
+          exact List.mem_map.mpr ⟨x, hx, by simp [hxs]⟩
+      · rename_i hany
+        refine ⟨fun q hq hs => ?_, ?_⟩
+        · have hq' := (updatePrices_untouched _ rest q (by rw [hs]; exact hnot)).mp hq
+          rcases List.mem_append.mp hq' with a | a
+          · exfalso; apply hany; exact List.any_eq_true.mpr ⟨q, a, by simpa using hs⟩
+          · simpa using a
+        · apply (updatePrices_untouched _ rest p hnot).mpr; simp
+    · simp only [updatePrices]
+      split
+      · exact ih _ hrest e
+      · exact ih _ hrest e
+
+example : updatePrices [{ sid := "a", status := 3, price := 5, ts := 1 }] [{ sid := "a", status := 2, price := 0, ts := 9 }] = [{ sid := "a", status := 2, price := 0, ts := 9 }] := by decide
 
 end C08
